@@ -634,6 +634,15 @@ Theorem C18_window_files :
 Proof. exact lint_window. Qed.
 Print Assumptions C18_window_files.
 
+(** 44'. ... for ANY base/files split a ChangeDetector hands to DevLoader.LoadChanges (LatestChanges, the git
+    detector, ...): when the replay succeeds, exactly the files of the `files` part get an entry, in order; no file of
+    the base is analysed (checkpoint files included: skipped in the main loop, replayed on the clean database). *)
+Theorem C18_window_files_any_split :
+  forall (base files : list mfile) l,
+  LoadChanges base files = Loaded l -> map fst l = map f_id files.
+Proof. exact LoadChanges_ids. Qed.
+Print Assumptions C18_window_files_any_split.
+
 (** * Round 5 -- temporary objects of the SQLite-derived change lists (Lint/LintHistProofs.v) *)
 
 (** 45. The span states of rounds 1-2 ([table_state], [column_state]) are end states of add/drop histories too. *)
@@ -667,6 +676,21 @@ Theorem C18_sound_temp_table_file :
   forall p, ~ In (mkDiag DS102 p [n]) (analyze_file (changes_of r0 stmts rs)).
 Proof. exact sound_temp_table_file. Qed.
 Print Assumptions C18_sound_temp_table_file.
+
+(** 48. ... and the bridge for columns: a column that table t has neither before the file nor after it, t being
+    there after every statement, is left out of every DS103 of the file's ModifyTable changes of t -- however often
+    it is added and dropped in between (pre-pass not firing).  Without "t stays" the statement is false
+    (ADD c; DROP c; ADD c; DROP TABLE t reports the DROP c: finding `recreated`). *)
+Theorem C18_sound_temp_column_file :
+  forall (r0 : realm) (stmts : list pstmt) (rs : list realm) (t c : name),
+  wf_realm r0 -> run r0 stmts rs ->
+  rewriteTemp (changes_of r0 stmts rs) = changes_of r0 stmts rs ->
+  has_table r0 t -> Forall (fun x => has_table x t) rs ->
+  ~ has_col r0 t c -> ~ has_col (last rs r0) t c ->
+  forall sc T cs, In sc (rewriteTemp (changes_of r0 stmts rs)) -> In (ModifyTableC T cs) (sc_changes sc) -> t_name T = t ->
+  ~ In c (dropped_names (loadSpans (rewriteTemp (changes_of r0 stmts rs))) T cs).
+Proof. exact sound_temp_column_file. Qed.
+Print Assumptions C18_sound_temp_column_file.
 
 (* non-vacuity, round 5 *)
 Example ex_generic_multi :
@@ -717,4 +741,17 @@ Example ex_temp_table_file :
   /\ analyze_file (changes_of w_r0 stmts (states_of w_r0 stmts)) = [].
 Proof.
   vm_compute. repeat split; try reflexivity; intros H; apply H; reflexivity.
+Qed.
+
+Example ex_temp_column_file :
+  let x := mkCol [120]%N false 3 in
+  let stmts := [(0, AddColumn n_t x); (30, DropColumn n_t [120]%N); (60, AddColumn n_t x); (90, DropColumn n_t [120]%N)]%N in
+  run w_r0 stmts (states_of w_r0 stmts) /\ Forall (fun r => has_table r n_t) (states_of w_r0 stmts)
+  /\ ~ has_col w_r0 n_t [120]%N /\ ~ has_col (last (states_of w_r0 stmts) w_r0) n_t [120]%N
+  /\ analyze_file (changes_of w_r0 stmts (states_of w_r0 stmts)) = [].
+Proof.
+  vm_compute. repeat split; try reflexivity.
+  - repeat constructor; discriminate.
+  - intros [T [H1 H2]]. inversion H1; subst. apply H2. reflexivity.
+  - intros [T [H1 H2]]. inversion H1; subst. apply H2. reflexivity.
 Qed.
